@@ -53,14 +53,21 @@ impl MixSpec {
     }
     /// op lists are a function of (ops_seed, thread index, position) only, so shrinking the thread
     /// count or the list length keeps the remaining entries
-    pub fn lists(&self, backend_name: &str) -> Vec<Vec<(&'static str, crate::c12::ops::Shape, u64)>> {
+    /// the ops the lists draw from (engine B: without the ones whose set-up builds bootstrapping keys)
+    pub fn op_names(&self, backend_name: &str) -> Vec<&'static str> {
         let all = backend(backend_name).core_ops();
+        all.iter()
+            .copied()
+            .filter(|o| {
+                let heavy = o.starts_with("word_") || o.starts_with("circuit_bootstrapping");
+                !(self.light && (heavy || o.contains("bdd") || o.contains("blind_rotation") || o.contains("fhe_uint")))
+            })
+            .collect()
+    }
+    pub fn lists(&self, backend_name: &str) -> Vec<Vec<(&'static str, crate::c12::ops::Shape, u64)>> {
         let mut ops: Vec<&'static str> = Vec::new();
-        for o in all {
+        for o in self.op_names(backend_name) {
             let heavy = o.starts_with("word_") || o.starts_with("circuit_bootstrapping");
-            if self.light && (heavy || o.contains("bdd") || o.contains("blind_rotation") || o.contains("fhe_uint")) {
-                continue;
-            }
             for _ in 0..(if heavy { 1 } else { 4 }) {
                 ops.push(o);
             }
@@ -715,6 +722,33 @@ impl CheckImpl for C20 {
                 ("prep".to_string(), "NTT120Ref", 8, 2),
             ],
         };
+        // PAIRS under Miri: two threads run the same inventory op at once on the shared Module; the
+        // happens-before race detector needs no lucky timing. Thorough: the whole light inventory on
+        // both reference backends; quick: a seed-chosen sample.
+        let light_len = MixSpec {
+            n: 8,
+            threads: 2,
+            ops_seed: 0,
+            ops_per_thread: 0,
+            thorough: false,
+            light: true,
+        }
+        .op_names("FFT64Ref")
+        .len() as u64;
+        match tier {
+            Tier::Quick => {
+                jobs.push((format!("pairs:{}:6:{}", mix(seed, 0xC, 0) % light_len, seed % 1000), "FFT64Ref", 8, 1));
+                jobs.push((format!("pairs:{}:4:{}", mix(seed, 0xC, 1) % light_len, seed % 1000), "NTT120Ref", 8, 1));
+            }
+            Tier::Thorough => {
+                let per = light_len.div_ceil(16);
+                for be in ["FFT64Ref", "NTT120Ref"] {
+                    for k in 0..16 {
+                        jobs.push((format!("pairs:{}:{per}:{}", k * per, seed % 1000), be, 8, 1));
+                    }
+                }
+            }
+        }
         if tier == Tier::Thorough {
             // MIX under Miri: two threads, two inventory ops each; a different op list per job
             for j in 0..10u64 {
@@ -725,20 +759,30 @@ impl CheckImpl for C20 {
         let first = (seed % 1000) as u32;
         let mut viols = Vec::new();
         let mut runs = Vec::new();
-        // build once (first job, one seed), then the rest in parallel
-        let handles: Vec<_> = {
-            jobs.iter()
-                .map(|(sc, be, n, k)| {
-                    let (sc, be, n, k) = (sc.clone(), be.to_string(), *n, *k);
-                    std::thread::spawn(move || {
+        // at most 16 Miri processes at a time (cargo serialises the one build among them)
+        let queue = std::sync::Arc::new(std::sync::Mutex::new(
+            jobs.iter().map(|(sc, be, n, k)| (sc.clone(), be.to_string(), *n, *k)).collect::<std::collections::VecDeque<_>>(),
+        ));
+        let results = std::sync::Arc::new(std::sync::Mutex::new(Vec::new()));
+        let pool: Vec<_> = (0..jobs.len().min(16))
+            .map(|_| {
+                let (queue, results) = (queue.clone(), results.clone());
+                std::thread::spawn(move || {
+                    loop {
+                        let job = queue.lock().unwrap().pop_front();
+                        let Some((sc, be, n, k)) = job else { break };
                         let r = miri_run(&sc, &be, n, first, first + k);
-                        (sc, be, n, k, r)
-                    })
+                        results.lock().unwrap().push((sc, be, n, k, r));
+                    }
                 })
-                .collect()
-        };
-        for h in handles {
-            let (sc, be, n, k, r) = h.join().unwrap();
+            })
+            .collect();
+        for h in pool {
+            h.join().unwrap();
+        }
+        let mut results = std::mem::take(&mut *results.lock().unwrap());
+        results.sort_by(|a, b| (&a.0, &a.1).cmp(&(&b.0, &b.1)));
+        for (sc, be, n, k, r) in results {
             runs.push(json!({"scenario": sc, "backend": be, "n": n, "seeds": format!("{first}..{}", first + k), "ok": r.0}));
             if !r.0 {
                 viols.push(miri_viol(&sc, &be, n, first, first + k, &r.1));
@@ -825,6 +869,61 @@ pub fn miri_main(args: &[String]) -> ! {
             let m = b.prep(&s, &w, None).0;
             s.threads = 1;
             (m, b.prep(&s, &w0, None).0)
+        }
+        sc if sc.starts_with("pairs") => {
+            // pairs:<from>:<count>:<shape_seed>: for each of `count` inventory ops starting at index `from` (light
+            // list, wrapping), two plain std threads run that op at the same time with different shapes on the
+            // shared Module. The oracle is Miri's own happens-before race detector (no timing needed for
+            // unsynchronised non-atomic accesses) plus "no panic that the op does not have alone".
+            crate::sched::UNSCHEDULED.store(true, std::sync::atomic::Ordering::Relaxed);
+            let light = MixSpec {
+                n,
+                threads: 2,
+                ops_seed: 0,
+                ops_per_thread: 0,
+                thorough: false,
+                light: true,
+            }
+            .op_names(backend_name);
+            // <from> is an index into that list or an op name
+            let mut it = sc.split(':').skip(1);
+            let from: u64 = it
+                .next()
+                .map(|x| x.parse::<u64>().unwrap_or_else(|_| light.iter().position(|o| *o == x).unwrap_or(0) as u64))
+                .unwrap_or(0);
+            let count: u64 = it.next().and_then(|x| x.parse().ok()).unwrap_or(4);
+            let shape_seed: u64 = it.next().and_then(|x| x.parse().ok()).unwrap_or(1);
+            let mut done = Vec::new();
+            for k in 0..count {
+                let op = light[((from + k) % light.len() as u64) as usize];
+                let shapes: Vec<crate::c12::ops::Shape> = (0..2u64)
+                    .map(|t| {
+                        let mut r = Rng::new(mix(mix(shape_seed, 0x9A1, from + k), 0x9A2, t));
+                        let mut sh = crate::c12::random_shape(&mut r, false);
+                        sh.n = n;
+                        sh
+                    })
+                    .collect();
+                let shapes = &shapes;
+                let mut res = [0u64; 2];
+                let r = crate::util::catch(|| {
+                    std::thread::scope(|scope| {
+                        for (t, slot) in res.iter_mut().enumerate() {
+                            scope.spawn(move || {
+                                *slot = mix_one(b, op, &shapes[t], 1 + t as u64);
+                            });
+                        }
+                    });
+                });
+                if let Err(e) = r {
+                    println!("MIRI-ENGINE-B: panic in pair {op}: {e}");
+                    std::process::exit(1);
+                }
+                done.push(format!("{op}{}", if res.contains(&MIX_ERR) { "(inadmissible)" } else { "" }));
+            }
+            println!("MIRI-PAIRS: {}", done.join(" "));
+            println!("MIRI-ENGINE-B: ok scenario={scenario} backend={backend_name} n={n} outputs={}", done.len());
+            std::process::exit(0);
         }
         sc if sc.starts_with("mix") => {
             // mix:<ops_seed>: two threads, two inventory ops each, on the shared Module of ring degree n
@@ -942,7 +1041,8 @@ fn miri_viol(scenario: &str, backend_name: &str, n: u32, from: u32, to: u32, rep
         unit: u64::MAX - 1,
         oracle: "MIRI".into(),
         class: "miri_report".into(),
-        subject: format!("{scenario}/{backend_name}"),
+        // one report per scenario kind and backend (PAIRS batches differ only in their op range)
+        subject: format!("{}/{backend_name}", scenario.split(':').next().unwrap_or(scenario)),
         detail: format!("Miri (seeds {from}..{to}) reported: {report}"),
         replay: json!({"engine": "B", "scenario": scenario, "backend": backend_name, "n": n, "seed_from": from, "seed_to": to,
                        "miri_flags": "-Zmiri-disable-isolation -Zmiri-preemption-rate=0.1 -Zmiri-many-seeds"}),
